@@ -27,6 +27,9 @@ CHECKS = {
  "C07": dict(technique="runtime monitoring: cross-protocol monitor over all 56 ordered protocol pairs (exhaustive), verbatim and relabelled tokens, shared key material, three layers",
    text="Tokens of protocol X are presented verbatim and with Y's header to Y's core/generic/batteries entry points using the same key bytes wherever types allow; any acceptance is a violation. quick ~5e3 evaluations over all 56 pairs.",
    note="forgery resistance of the primitives assumed", ref="DESIGN.md section 4 C07"),
+ "C08": dict(technique="runtime monitoring: offline differential checker over recorded event logs in both directions against an independent executable reference (pure-Python refpaseto pinned to all 48 official vectors)",
+   text="The library's tokens for explicit (key, nonce, message, footer, assertion) are recomputed by the reference and must be byte-identical (local) / verify (public); builder-produced tokens must open under the reference; the footer segment must be present iff the footer is non-empty; reference-built tokens (fresh nonces, and v1 wire nonces at AES-CTR carry boundaries) must be opened by the library to exactly the message. quick ~3.8e3 tokens each way, thorough ~6e4 with messages to 256 KiB.",
+   note="the reference could share a misreading of the specification with the implementation: it is pinned to every official vector and each primitive to its RFC/FIPS known-answer test; no shared code, language or crypto library", ref="DESIGN.md section 4 C08", engine="c08-differential"),
  "C09": dict(technique="runtime monitoring: panic/crash monitor (catch_unwind + panic-location hook + parent-side death detection; thorough adds a plain-release pass and valgrind memcheck) over hostile token strings at all 24 entry points and Key::<N>::try_from",
    text="Any Ok/Err is accepted, a panic or process death is the violation. Exhaustive over decoded payload lengths 0..=400 per protocol x fill x footer, every prefix of authentic tokens, hex strings of every length 0..=200; seeded random and large inputs on top.",
    note="inputs above 3 MiB not driven; valgrind decides only on process death or invalid write/free below a library frame", ref="DESIGN.md section 4 C09"),
@@ -101,8 +104,10 @@ def main():
             "add_only": True,
         },
         "engines": [
-            {"name": "vh-harness", "path": "harness/", "serves_properties": sorted(p for p in claimed if p != "C20"),
+            {"name": "vh-harness", "path": "harness/", "serves_properties": sorted(p for p in claimed if p not in ("C20", "C08")),
              "kind_free_text": "Rust binary linked against /repo (all 8 protocol features, hooks on): workload drivers + online monitors, one driver per property; ./check wraps it (build, watchdog, known-findings filter, evidence)"},
+            {"name": "c08-differential", "path": "vlib/c08.py + refpaseto/ + harness/src/c08.rs", "serves_properties": ["C08"],
+             "kind_free_text": "offline checker joining the library's token log with the reference model's, both directions; refpaseto = pure-Python transcription of the PASETO spec with from-scratch AES/ChaCha20/Poly1305/Ed25519/P-384/RSA-PSS"},
             {"name": "c20-matrix", "path": "vlib/c20.py + smoke/", "serves_properties": ["C20"],
              "kind_free_text": "feature-configuration matrix: cargo build + execute a cfg-gated smoke program per configuration"},
         ],
